@@ -26,6 +26,52 @@ type scriptSpec struct {
 	Items []int  `json:"items,omitempty"` // indices into the case's item pool (taken modulo its size)
 	Enc   []int  `json:"enc,omitempty"`   // push encodings for cls=pushes: 0 minimal, 1 PUSHDATA1, 2 PUSHDATA2
 	M     int    `json:"m,omitempty"`
+	// Mut: one byte of the finished script is replaced (position modulo its length): templates that are almost
+	// standard.  Pushes and parsability then come from parsePushes, the harness's own reading of the bytes.
+	Mut    bool `json:"mut,omitempty"`
+	MutPos int  `json:"mut_pos,omitempty"`
+	MutVal byte `json:"mut_val,omitempty"`
+}
+
+// parsePushes reads a script the way Bitcoin scripts are tokenised: 0x01..0x4b push that many bytes, 0x4c /
+// 0x4d / 0x4e take a 1 / 2 / 4-byte little-endian length, every other opcode is one byte without data; a push
+// that runs past the end makes the script unparsable.  OP_0 counts as an empty data element (as bchd reports it).
+func parsePushes(s []byte) (pushes [][]byte, ok bool) {
+	for i := 0; i < len(s); {
+		op := s[i]
+		i++
+		n, w := 0, 0
+		switch {
+		case op >= 0x01 && op <= 0x4b:
+			n = int(op)
+		case op == 0x4c:
+			w = 1
+		case op == 0x4d:
+			w = 2
+		case op == 0x4e:
+			w = 4
+		case op == 0x00:
+			pushes = append(pushes, []byte{}) // bchd's tokenizer reports OP_0 as an empty data element
+			continue
+		default:
+			continue
+		}
+		if w > 0 {
+			if i+w > len(s) {
+				return nil, false
+			}
+			for k := w - 1; k >= 0; k-- {
+				n = n<<8 | int(s[i+k])
+			}
+			i += w
+		}
+		if n < 0 || i+n > len(s) {
+			return nil, false
+		}
+		pushes = append(pushes, s[i:i+n:i+n])
+		i += n
+	}
+	return pushes, true
 }
 
 func pushOp(data []byte, enc int) []byte {
@@ -123,6 +169,14 @@ func buildScript(s scriptSpec, pool []HexBytes, self ...[]byte) (script []byte, 
 	default: // empty
 		script = []byte{}
 	}
+	if s.Mut && len(script) > 0 {
+		script = append([]byte{}, script...)
+		script[((s.MutPos%len(script))+len(script))%len(script)] = s.MutVal
+		pushes, parsable = parsePushes(script)
+		if !parsable {
+			pushes = nil
+		}
+	}
 	for i, p := range pushes {
 		if len(p) == 0 {
 			pushes[i] = nil
@@ -162,6 +216,7 @@ type c10Case struct {
 	Txs     []c10Tx      `json:"txs"`  // creation (topological) order
 	Perm    []int        `json:"perm"` // block order: positions -> creation index (normalised to a permutation)
 	PermTag string       `json:"perm_tag"`
+	DupPos  []int        `json:"dup_pos,omitempty"` // further block positions holding a transaction that is already in the block
 }
 
 type builtTx struct {
@@ -418,6 +473,14 @@ func evalC10(c c10Case, o *Obs) error {
 
 	// ---- block scan ----
 	perm := normPerm(c.Perm, len(txs))
+	for _, d := range c.DupPos { // the same transaction at a further position of the block
+		if d < 0 {
+			d = -d
+		}
+		at, src := d%(len(perm)+1), perm[(d/7)%len(perm)]
+		perm = append(perm[:at:at], append([]int{src}, perm[at:]...)...)
+		o.Class("C10:transaction-twice-in-the-block")
+	}
 	blk := wire.NewMsgBlock(&wire.BlockHeader{Version: 1})
 	for _, pi := range perm {
 		blk.AddTransaction(txs[pi].msg)
@@ -438,9 +501,11 @@ func evalC10(c c10Case, o *Obs) error {
 	}
 	// lower bound: least fixpoint over exact sets
 	relevant, direct := exactRelevant(c.Flags, txs, items)
-	posOf := make([]int, len(txs))
-	for pos, pi := range perm {
-		posOf[pi] = pos
+	posOf := make([]int, len(txs)) // first position
+	allPos := make([][]int, len(txs))
+	for pos := len(perm) - 1; pos >= 0; pos-- {
+		posOf[perm[pos]] = pos
+		allPos[perm[pos]] = append(allPos[perm[pos]], pos)
 	}
 	for i := range txs {
 		if !relevant[i] {
@@ -458,9 +523,11 @@ func evalC10(c c10Case, o *Obs) error {
 				}
 			}
 		}
-		if !R[posOf[i]] {
-			return fmt.Errorf("GetMatchedIndices (order %v, flags %d) misses position %d: tx %v is relevant to the loaded filter "+
-				"(directly relevant: %v) but was not reported; reported %v", perm, c.Flags, posOf[i], txs[i].hash, direct[i], sortedKeys(R))
+		for _, pos := range allPos[i] {
+			if !R[pos] {
+				return fmt.Errorf("GetMatchedIndices (order %v, flags %d) misses position %d: tx %v is relevant to the loaded filter "+
+					"(directly relevant: %v) but was not reported; reported %v", perm, c.Flags, pos, txs[i].hash, direct[i], sortedKeys(R))
+			}
 		}
 	}
 	o.Class("C10:perm=" + c.PermTag)
@@ -574,6 +641,10 @@ func genScriptSpec(t *rapid.T, npool int, forInput bool) scriptSpec {
 		classes = []string{"pushes", "pushes", "pushes", "unparsable", "empty"}
 	}
 	s := scriptSpec{Cls: rapid.SampledFrom(classes).Draw(t, "cls")}
+	if !forInput && rapid.IntRange(0, 5).Draw(t, "near") == 0 { // almost a standard template
+		s.Mut, s.MutPos = true, rapid.IntRange(-4, 70).Draw(t, "mutpos")
+		s.MutVal = rapid.SampledFrom([]byte{0x00, 0x01, 0x14, 0x15, 0x21, 0x41, 0x4c, 0x4d, 0x4e, 0x51, 0x52, 0x87, 0x88, 0xac, 0xae, 0xa9, 0x76, 0x6a, 0xff}).Draw(t, "mutval")
+	}
 	switch s.Cls {
 	case "p2pk":
 		s.Items = []int{rapid.IntRange(0, 1).Draw(t, "pk")} // pool[0]: 33 bytes, pool[1]: 65 bytes
@@ -636,6 +707,32 @@ func genC10(t *rapid.T) c10Case {
 	c.Tweak = rapid.Uint32().Draw(t, "tweak")
 	c.Flags = byte(rapid.IntRange(0, 2).Draw(t, "flags"))
 	ntx := rapid.IntRange(1, 10).Draw(t, "ntx")
+	if rapid.IntRange(0, 7).Draw(t, "fpmask") == 0 {
+		// directed: a dense little filter in which insertions turn other elements into false positives.  D spends
+		// T's output and is relevant through nothing else; T and a few unrelated X match a watched item and insert
+		// their outpoints.  With D before T in the block, T's own outpoint may already "be there" (all its bits set
+		// by the X's) when T is finally checked - D has to be found regardless.
+		c.Len, c.K, c.Flags = rapid.IntRange(2, 4).Draw(t, "fplen"), uint32(rapid.IntRange(1, 3).Draw(t, "fpk")), 1
+		c.Txs = nil
+		c.Txs = append(c.Txs, c10Tx{Ins: []c10In{{Src: -1, Out: 0, Script: scriptSpec{Cls: "empty"}}}, // T
+			Outs: []scriptSpec{{Cls: "pushes", Items: []int{5 % len(c.Pool)}, Enc: []int{0}}}})
+		c.Txs = append(c.Txs, c10Tx{LockTime: 1, Ins: []c10In{{Src: 0, Out: 0, Script: scriptSpec{Cls: "empty"}}}, // D
+			Outs: []scriptSpec{{Cls: "empty"}}})
+		nx := rapid.IntRange(1, 4).Draw(t, "nx")
+		for i := 0; i < nx; i++ {
+			x := c10Tx{LockTime: uint32(10 + i), Ins: []c10In{{Src: -2, Out: uint32(i), Script: scriptSpec{Cls: "empty"}}}}
+			for k := rapid.IntRange(1, 4).Draw(t, "xouts"); k > 0; k-- {
+				x.Outs = append(x.Outs, scriptSpec{Cls: "pushes", Items: []int{5 % len(c.Pool)}, Enc: []int{0}})
+			}
+			c.Txs = append(c.Txs, x)
+		}
+		c.Preload = []c10Preload{{Kind: "item", A: 5 % len(c.Pool)}}
+		c.PermTag = "random"
+		c.Perm = []int{1} // D first
+		rest := rapid.Permutation(append([]int{0}, seqInts(len(c.Txs))[2:]...)).Draw(t, "fpperm")
+		c.Perm = append(c.Perm, rest...)
+		return c
+	}
 	if rapid.IntRange(0, 5).Draw(t, "chainmode") == 0 {
 		// directed: a spend chain P -> Y1 -> Y2 ... in which every link becomes relevant only through its
 		// predecessor: P's output carries a watched item; each Yk spends the previous output and carries,
@@ -706,6 +803,11 @@ func genC10(t *rapid.T) c10Case {
 			tx.Outs = append(tx.Outs, genScriptSpec(t, len(c.Pool), false))
 		}
 		c.Txs = append(c.Txs, tx)
+	}
+	if rapid.IntRange(0, 9).Draw(t, "dup") == 0 {
+		for k := rapid.IntRange(1, 2).Draw(t, "ndup"); k > 0; k-- {
+			c.DupPos = append(c.DupPos, rapid.IntRange(0, 1000).Draw(t, "duppos"))
+		}
 	}
 	np := rapid.IntRange(0, 4).Draw(t, "npre")
 	for i := 0; i < np; i++ {
